@@ -9,6 +9,8 @@ from .._align import align
 from .._change import Delete
 from .._change import ListInsert
 from .._compare_context import compare_context
+from .._types import Snapshot
+from .._unmanaged import Unmanaged
 from ..syntax_warnings import InlineSnapshotSyntaxWarning
 from .adapter import Adapter
 from .adapter import Item
@@ -66,8 +68,16 @@ class SequenceAdapter(Adapter):
                     )
                     return old_value
 
-        with compare_context():
-            diff = add_x(align(old_value, new_value))
+        if len(old_value) == len(new_value) and any(
+            isinstance(e, Unmanaged) and isinstance(e.value, Snapshot)
+            for e in old_value
+        ):
+            # inner snapshots are compared (and fixed) by their position,
+            # which is also possible for the other elements if nothing has to be moved
+            diff = "m" * len(old_value)
+        else:
+            with compare_context():
+                diff = add_x(align(old_value, new_value))
         old = zip(
             old_value,
             old_node.elts if old_node is not None else [None] * len(old_value),
